@@ -7,9 +7,30 @@ E2 = "E2 preemption-bounded exhaustive schedule exploration under a cooperative 
 E3 = "E3 bounded-exhaustive enumeration of builder programs / inputs (small-scope) judged by independent reference readers"
 CHECKS = {
  # id: (engine, technique, level text, level_note, design_ref)
+ "C03": ("E1", "stateless model checking: deviation-bounded enumeration of producer faults, transport faults and reply scripts on the real Send path; oracle = server commit log vs reference rendering",
+         "Every vector of <=2 (quick) / <=3 (thorough) deviations over producer faults (each part/embed/attachment: before first byte, after half), transport failure at 5 offset classes of each DATA phase and server replies at NOOP/MAIL/RCPT/DATA/end-of-data/RSET is executed; the reference server's commit log must contain only complete renderings, IsDelivered must equal the 2yz acknowledgement.",
+         "Trusts refsmtp (dot-unstuffing, commit log) and that WriteTo on the same Msg after Send is the reference rendering (C11); batches <=3; four message shapes.", "§4 C03"),
  "C04": ("E1", "stateless model checking: exhaustive reply-script enumeration up to a deviation bound, lock-step reference automaton + protocol monitor",
-         "Every reply script with <=k deviations (k=1 on all 2048 client×capability configurations, k=2/3 on 8 deep ones) is executed on the real Client; a strict RFC 5321 monitor judges every command. Covers what sampling tests cannot: all positions × all reply classes × all capability subsets.",
-         "Trusts the harness' reference automaton (refsmtp) and the synchronous fake connection; batches <=3x3; no PIPELINING; bounded deviations.", "§4 C04"),
+         "Every reply script with <=k deviations (k=1 on all client×capability configurations, k=2/3 on 8 deep ones; thorough k=2 everywhere) is executed on the real Client; a strict RFC 5321 monitor judges every command and every client-reported error is traced back to the tagged reply that caused it.",
+         "Trusts the reference automaton (refsmtp) and the synchronous fake connection; batches <=3x3; no PIPELINING; bounded deviations.", "§4 C04"),
+ "C12": ("E1", "exhaustive fault enumeration: sink failure at every byte offset x 2 styles x first/second render, every producer x 3 failure points, on 14 message shapes",
+         "Complete per shape: every byte offset of the output is a failure point; the oracle (no panic, error iff fault, count = bytes accepted) is checked on each.",
+         "14 shapes stand for all shapes; sinks honour the io.Writer contract; S/MIME shapes at every third offset in quick.", "§4 C12"),
+ "C15": ("E1", "explicit enumeration of all server message sequences up to length 5 (quick) / 6 (thorough) over the 10-symbol alphabet, reference SCRAM automaton as oracle",
+         "All sequences are driven through smtp.Client.Auth for 4 SCRAM variants; the reference automaton (own RFC 5802 implementation, self-tested on RFC vectors) decides which successes are legitimate and whether an acknowledgement was due.",
+         "Trusts the harness SCRAM implementation (validated on RFC 5802/7677 vectors); PLUS variants on a fabricated TLS 1.2 state here (real TLS in C14).", "§4 C15"),
+ "C16": ("E1", "deviation-bounded enumeration of server scripts at every AUTH step x mechanism x credential x logger; log scanned for the secret and its encodings",
+         "All scripts with <=3 (quick) / <=6 (thorough) deviations over {conforming, 535, non-base64 challenge, extra challenge, drop}; with WithLogAuthData as positive control of the scanner; post-authentication traffic must be logged verbatim.",
+         "Needle set = raw secret, base64/url-base64/hex forms, exact SASL response; user names are not secrets.", "§4 C16"),
+ "C17": ("E1", "exhaustive stall-point enumeration with a logical (clock-free) oracle on connection deadlines",
+         "One stall at every command position x TLS mode x auth class x entry point (incl. Send after an idle hour, write-side stall, stall inside the TLS handshake); the fake connection knows when the client blocks on a silent peer and which deadline is armed.",
+         "Assumes net.Conn deadline semantics; does not wait in real time (no flakiness); caller context is not counted as a bound.", "§4 C17"),
+ "C19": ("E1", "deviation-bounded enumeration of failing replies (4yz/5yz/drop/garbage) at every step x TLS policy x handshake behaviour x auth type; oracle on Close() of the handed-out connection",
+         "All scripts with <=2 (quick) / <=3 (thorough) deviations across 4 TLS policies incl. implicit TLS and real crypto/tls handshakes (ok / wrong-name cert / garbage / drop) and 10 auth classes.",
+         "'Closed' = Close called on the connection returned by the dial function (or a TLS wrapper of it).", "§4 C19"),
+ "C20": ("E1", "exhaustive enumeration: every reply code 400..599 x 5 text kinds x every failing position x failing message x ESC advertised or not, plus pairs of failing messages; reference function as oracle",
+         "The full product is executed on the real Send path of a 3x3 batch and compared with a reference function of the replies actually sent.",
+         "Rejected-recipient list read from SendError.Error(); refsmtp trusted.", "§4 C20"),
 }
 NOT_YET = {}
 def main():
